@@ -172,6 +172,7 @@ def _reduce_cs(p):
 
 
 def run(ctx):
+    gauss_coordinates_order_rule(ctx)
     from ..shared import state_alias_rule as _state_alias_rule
 
     _state_alias_rule(ctx, "R9.10", scope=lambda f, _s=("EasyFEA.FEM._group_elem", "EasyFEA.FEM._mesh", "EasyFEA.Simulations._simu", "EasyFEA.Simulations._beam"): f.module.name.startswith(_s), min_instances=50)
@@ -395,3 +396,47 @@ def selection_rules(ctx):
         r9.fail(f.qualname, "counts-duplicates", f.file, node.lineno, "Get_Elements_Nodes", f"`{norm_text(node)[:80]}`: {desc} of a value that keeps one entry per entry of `nodes`: a node listed twice (corner shared by two concatenated edge selections) changes which elements are selected, and the loads on them are lost")
     else:
         r9.ok("Get_Elements_Nodes: the node list reaches the result through set / nonzero->set / mask operations only")
+
+
+def gauss_coordinates_order_rule(ctx):
+    """R9.11: the load integrators pair, row by row, the Gauss-point coordinates of the selected elements with
+    `connect[elements]` and `wJ_e_pg[elements]`; the selection is in hash order (a set), not sorted.  Row k of
+    Get_GaussCoordinates_e_pg(mt, elements) must therefore belong to elements[k]: interpreted on three symbolic elements
+    with the unsorted selection (2, 0)."""
+    repo = ctx.repo
+    r = ctx.rule("R9.11", "Get_GaussCoordinates_e_pg(matrixType, elements): row k holds the Gauss-point coordinates of elements[k] (selection order kept, also when it is not ascending)", min_instances=2)
+    ge = repo.cls("EasyFEA.FEM._group_elem._GroupElem")
+    f = ge.methods["Get_GaussCoordinates_e_pg"]
+    Ne, nPe, nPg, Nn = 3, 2, 2, 4
+    connect = XArray((Ne, nPe), [0, 1, 1, 2, 2, 3])
+    coord = XArray((Nn, 3), [Poly.var(f"X{n}{d}") for n in range(Nn) for d in range(3)])
+    N = XArray((nPg, 1, nPe), [Poly.var(f"N{p}{a}") for p in range(nPg) for a in range(nPe)])
+    from ..femchain import fe_hook_full
+
+    for sel in ([2, 0], [1, 2, 0]):
+        r.instance(fn=f.qualname)
+        obj = XObj(ge, dict(Ne=Ne, nPe=nPe, Ncoords=Nn, connect=connect, coord=XArray(coord.shape, list(coord.data)), elements=XArray((Ne,), [0, 1, 2]), nodes=XArray((Nn,), list(range(Nn))),
+                            _global_to_local_nodes=XArray((Nn,), list(range(Nn))), Get_N_pg=lambda mt=None: N))
+        obj.attrs[ge.mangle("__connect")] = connect
+        obj.attrs[ge.mangle("__coord")] = coord
+        I = Interp(repo)
+        I.call_hook = fe_hook_full
+        try:
+            out = XArray.from_nested(I.call_function(f, [Opaque("mt"), XArray((len(sel),), list(sel))], self_obj=obj))
+        except XRaise as e:
+            r.fail(f.qualname, f"sel:{sel}", f.file, f.lineno, "Get_GaussCoordinates_e_pg", f"selection {sel}: raises {e}")
+            continue
+        bad = None
+        if out.shape != (len(sel), nPg, 3):
+            bad = f"shape {out.shape}"
+        else:
+            for k, e in enumerate(sel):
+                for p in range(nPg):
+                    for d in range(3):
+                        want = sum((N[p, 0, a] * coord[connect[e, a], d] for a in range(nPe)), Poly())
+                        if not is_zero(out[k, p, d] - want):
+                            bad = f"row {k} (element {e}), point {p}: {out[k, p, d]!r}, expected {want!r}"
+        if bad:
+            r.fail(f.qualname, "selection-order", f.file, f.lineno, "Get_GaussCoordinates_e_pg", f"selection {sel}: {bad}: a position-dependent load is evaluated at another element's Gauss points than the one whose nodes receive it")
+        else:
+            r.ok(f"selection {sel}: rows follow the selection")
